@@ -24,9 +24,12 @@ fn addr(cluster: u16, slot: u16) -> SocketAddr {
 }
 
 async fn start(cluster: u16, id: u8, slot: u16, seeds: Vec<String>, transport: &ChannelTransport) -> ChitchatNode {
+    start_with(cluster, id, slot, seeds, transport, ClusterStatistics::default()).await
+}
+
+async fn start_with(cluster: u16, id: u8, slot: u16, seeds: Vec<String>, transport: &ChannelTransport, statistics: ClusterStatistics) -> ChitchatNode {
     let a = addr(cluster, slot);
-    ChitchatNode::connect(ClusterMember::new(id, a, "dc".to_string()), a, format!("source-{cluster}"), seeds, failure_detector(), transport,
-                          ClusterStatistics::default())
+    ChitchatNode::connect(ClusterMember::new(id, a, "dc".to_string()), a, format!("source-{cluster}"), seeds, failure_detector(), transport, statistics)
         .await
         .expect("a chitchat node over the channel transport starts")
 }
@@ -49,7 +52,8 @@ fn scripts() -> Vec<Script> {
 
 async fn run_script(cluster: u16, script: Script) -> Vec<Value> {
     let transport = ChannelTransport::default();
-    let observer = start(cluster, 1, 1, vec![], &transport).await;
+    let statistics = ClusterStatistics::default();
+    let observer = start_with(cluster, 1, 1, vec![], &transport, statistics.clone()).await;
     let members = observer.members_watcher();
     let seed = addr(cluster, 1).to_string();
     let mut running: BTreeMap<u8, (u16, ChitchatNode)> = BTreeMap::new();
@@ -81,6 +85,7 @@ async fn run_script(cluster: u16, script: Script) -> Vec<Value> {
         out.push(json!({"ev": "settled", "cluster": cluster, "after": [step, id, slot],
                         "running": truth.iter().map(|(i, a)| json!([i, a])).collect::<Vec<_>>(),
                         "snapshot": view(&members).iter().map(|(i, a)| json!([i, a])).collect::<Vec<_>>(),
+                        "live_counter": statistics.num_live_members(),
                         "waited_ms": start_wait.elapsed().as_millis() as u64}));
     }
     for (_, (_, node)) in running {
